@@ -22,9 +22,9 @@ pub fn profile() -> Profile {
 
 pub fn gen_lives(t: &mut Tape) -> Vec<LifePlan> {
     if t.chance(1, 6) {
-        vec![LifePlan { oneshot: true, checks: 1, crash_at: None }]
+        vec![LifePlan::new(true, 1, None)]
     } else {
-        vec![LifePlan { oneshot: false, checks: 1 + t.choose(3), crash_at: None }]
+        vec![LifePlan::new(false, 1 + t.choose(3), None)]
     }
 }
 
